@@ -34,6 +34,10 @@ type Config struct {
 	CheckpointInterval int64 `json:"ckpt_interval_ns"`
 	MaxSyncWALFrames   int   `json:"max_sync_frames"` // 0 = unlimited, -1 = 64MiB default, n = n frames
 	MaxSyncLTXFiles    int   `json:"max_sync_files"`
+	// SecureDelete: the application connections run with PRAGMA secure_delete=ON, so
+	// freed pages are zero-filled and a database can end in all-zero pages. Not drawn by
+	// RandomConfig (that would shift every seeded history); set by the case generators.
+	SecureDelete bool `json:"secure_delete,omitempty"`
 }
 
 var PageSizes = []int{512, 1024, 2048, 4096, 8192, 16384, 32768, 65536}
@@ -52,7 +56,11 @@ func RandomConfig(rng *rand.Rand) Config {
 }
 
 func (c Config) String() string {
-	return fmt.Sprintf("ps=%d av=%d min=%d trunc=%d ci=%d maxf=%d maxl=%d", c.PageSize, c.AutoVacuum, c.MinCheckpointPageN, c.TruncatePageN, c.CheckpointInterval, c.MaxSyncWALFrames, c.MaxSyncLTXFiles)
+	sd := ""
+	if c.SecureDelete {
+		sd = " secure_delete"
+	}
+	return fmt.Sprintf("ps=%d av=%d min=%d trunc=%d ci=%d maxf=%d maxl=%d%s", c.PageSize, c.AutoVacuum, c.MinCheckpointPageN, c.TruncatePageN, c.CheckpointInterval, c.MaxSyncWALFrames, c.MaxSyncLTXFiles, sd)
 }
 
 // LogCapture is a slog handler that counts messages (coverage evidence only).
@@ -133,6 +141,10 @@ func discardLogger() *slog.Logger { return slog.New(slog.NewTextHandler(io.Disca
 func NewEnv(dir string, cfg Config, rng *rand.Rand, res *vf.Result) (*Env, error) {
 	e := &Env{Ctx: context.Background(), Dir: dir, DBPath: filepath.Join(dir, "db"), RepPath: filepath.Join(dir, "rep"), Cfg: cfg, Rng: rng, Res: res,
 		Hashes: map[int64]string{}, Arch: oracle.NewArchive(), Logs: &LogCapture{}}
+	sq.ExtraPragmas = ""
+	if cfg.SecureDelete {
+		sq.ExtraPragmas = "&_pragma=secure_delete(1)"
+	}
 	w, err := sq.Create(e.DBPath, cfg.PageSize, cfg.AutoVacuum)
 	if err != nil {
 		return nil, fmt.Errorf("create db: %w", err)
@@ -184,6 +196,7 @@ func (e *Env) OpenApp() error {
 }
 
 func (e *Env) Close() {
+	sq.ExtraPragmas = ""
 	if e.metaFull {
 		_ = e.MetaFull(false)
 	}
